@@ -16,8 +16,8 @@ cp "$src/$L.diff" "$dst/patch.diff"; cp "$src/demo_$L.py" "$dst/demo.py"; cp "$s
 export NUMBA_NUM_THREADS=16 OMP_WAIT_POLICY=PASSIVE
 ( cd "$d" && timeout 1500 /venv/bin/python -m pytest -q -p no:cacheprovider --timeout=900 tests/test_util.py tests/test_tsc.py -k "not test_multi" 2>&1 | tail -3 ) > "$dst/tests.log" 2>&1
 tests=$(grep -c "30 passed" "$dst/tests.log")
-( cd "$d" && PYTHONPATH="$d:/tmp/mutenv/shims:/tmp/mutenv/deps" timeout 900 /venv/bin/python "$dst/demo.py" ) > "$dst/demo_with.log" 2>&1; with=$?
-( cd /tmp && PYTHONPATH="/repo:/tmp/mutenv/shims:/tmp/mutenv/deps" timeout 900 /venv/bin/python "$dst/demo.py" ) > "$dst/demo_without.log" 2>&1; without=$?
+( cd "$d" && PYTHONPATH="$d:/verif/shims:/verif/.deps" timeout 900 /venv/bin/python "$dst/demo.py" ) > "$dst/demo_with.log" 2>&1; with=$?
+( cd /tmp && PYTHONPATH="/repo:/verif/shims:/verif/.deps" timeout 900 /venv/bin/python "$dst/demo.py" ) > "$dst/demo_without.log" 2>&1; without=$?
 res=""
 for c in $id "$@"; do
   out=$(cd "$snap" && VT_REPO="$d" timeout 2400 ./check "$c" --no-evidence 2>&1)
